@@ -47,6 +47,7 @@ def sanitised_at(fnode, use_stmt, name):
 
 
 MAYINF, CLEAN = 'mayinf', 'clean'
+LOSES_INF = {'clip', 'minimum', 'maximum', 'fmin', 'fmax', 'nan_to_num', 'sign', 'tanh', 'arctan', 'isfinite_where'}
 
 
 def _isinf_of(e):
@@ -96,7 +97,15 @@ class Taint:
                 if xf is not None and nan2 and norm(e.args[1]) == xf:
                     self.ev(e.args[1])
                     return CLEAN
-            if name == 'nan_to_num':
+            if name in LOSES_INF:
+                vals_ = [self.ev(a) for a in e.args] + [self.ev(k.value) for k in e.keywords if k.arg != 'out']
+                recv = self.ev(e.func.value) if isinstance(e.func, ast.Attribute) and norm(e.func.value) not in ('_np', 'np', 'numpy') else CLEAN
+                if MAYINF in vals_ or recv == MAYINF:
+                    self.out.append(('bad', e, f'`{norm(e)[:70]}` turns an undefined entry (+/-inf from a zero denominator) into a finite value before it can be mapped to NaN'))
+                    self.lost = True
+                out_ = next((k.value for k in e.keywords if k.arg == 'out'), None)
+                if isinstance(out_, ast.Name):
+                    self.env[out_.id] = CLEAN
                 return CLEAN
             if name == '_compute_metric' or name in ('divide', 'true_divide'):
                 self.has_div = True
